@@ -362,6 +362,13 @@ func subDeadline() []subCfg {
 		just := (d - us).String()
 		out = append(out, subCfg{NCtx: 2, QLen: []int{2, 2}, RecvExp: []time.Duration{d, 0}, Steps: []string{
 			"conn", "sub c0 61", "sub c1 61", "recv c0", "recv c1", "adv " + just, "adv 1us", "pub p1 6101", "recv c0", "recv c0", "adv " + just, "pub p1 6102", "adv 1us", "recv c0", "adv " + d.String()}})
+		// the deadline of a Recv that is waiting is not pushed back by a queue length change or an Unsubscribe
+		if d >= time.Second {
+			half := (d / 2).String()
+			rest := (d - d/2 - us).String()
+			out = append(out, subCfg{NCtx: 2, QLen: []int{2, 2}, RecvExp: []time.Duration{d, d}, Steps: []string{
+				"conn", "sub c0 61", "sub c0 62", "sub c1 61", "recv c0", "recv c1", "adv " + half, "qlen c0 3", "unsub c1 61", "unsub c0 62", "adv " + rest, "adv 1us", "adv " + d.String()}})
+		}
 	}
 	return out
 }
